@@ -42,7 +42,9 @@ CFG = dict(
               "uvSphere_connected",
               "uvSphere_positions_from_source", "uvSphere_normals_from_source", "hemisphere_positions_from_source",
               "circle_positions_from_source", "cylinderSide_positions_from_source",
-              "uvSphere_oneUmbrella", "hemisphere_oneUmbrella", "uvSphereUnwelded_oneUmbrella_mod_merge"],
+              "uvSphere_oneUmbrella", "hemisphere_oneUmbrella", "uvSphereUnwelded_oneUmbrella_mod_merge",
+              "cylinder_oneUmbrella_mod_merge", "umbrella_checker_sound", "cubeWelded_oneUmbrella",
+              "cubeQuads_oneUmbrella_mod_merge"],
     streams=[dict(name="c18", n=dict(quick=30, thorough=60),
                   ulps={"c18.pos.sphere": _SIN, "c18.pos.sphereu": _SIN, "c18.pos.hemi": _SIN, "c18.nrm.sphere": _SINN,
                         "c18.pos.cyl": _ROT, "c18.nrm.cyl": _ROTN, "c18.pos.cubeq": _ROT, "c18.nrm.cubeq": _ROTN})],
@@ -54,12 +56,9 @@ CFG = dict(
         "sin/cos: Go math.Sin/Cos vs libm compared within 8 ulps or 1e-14 absolute (positions of sphere, hemisphere, cylinder, six-quad box; sizes <= 100; 1e-15 for unit normals); the quaternion-rotated parts (cylinder bottom cap, six-quad box) are modelled as the code builds them (Model/SolidsCode.lean over the regenerated Gen/Transform.lean quaternion code, engine T) and run at Float",
     ],
     residue=[
-        "index lists, vertex counts, panics: the loop nests, loop bounds, integer assignments, appends and guards of UVSphere, UVSphereUnwelded, Hemisphere.UV, Circle.ToMesh and Cylinder.ToMesh (side strip; order and conditions of the two cap Appends) are REGENERATED from the Go source on every run (go/facts c18.loops -> Gen/PrimLoops.lean, a program of Model/LoopIR.lean) and the model's index lists / vertex counts / admissibility are PROVED equal to the interpretation of the extracted program for all parameters (*_indices_from_source, guards_from_source, cylinder_caps_from_source, uvSphereUnwelded_copy_map_from_source); what stays trusted/corresponded there: the extractor and the IR semantics (Go int modelled in N: on admissible parameters no extracted subtraction goes below 0; statements that do not write a tracked slice or integer are skipped), Mesh.Append's index shift (mesh.go) and NewTriangleMesh/SetFloat3Data wiring; on top of that the exact correspondence with the running constructors for every (rows, cols), sides <= 24 and sampled up to 512 remains",
-        "vertex POSITION expressions (sin/cos formulas of sphere.go, hemisphere.go, cylinder.go, circle.go) are still a hand transcription (Model/Solids.lean, Model/SolidsCode.lean) compared at Float on every run; only the quaternion code inside SolidsCode is regenerated (Gen/Transform.lean)",
-        "vertex-manifoldness (one umbrella per vertex) and connectedness: theorems for the welded box and the six-quad box modulo merge (complete tables), connectedness of the welded UV sphere for all rows, cols (uvSphere_connected); one-umbrella-per-vertex for sphere / hemisphere / unwelded sphere / cylinder at ALL sizes is NOT proved (full statement C18.vertexManifold_full; a few instances in vertexManifold_partial) and is evaluated on the implementation's meshes (c18.holds.manifold: VertexManifold and Connected of the merged mesh, every size <= 24 with <= 6000 indices, and the moderate samples)",
-        "positions/normals: the implementation's float64 values agree with the model at Float up to the stated tolerances (observed on every run, not proved); the geometric theorems (outward, normals, volume) are over the reals about the model's expressions (IEEE rounding not modelled) and are re-checked numerically on the implementation's own output",
-        "six-quad box and cylinder bottom cap: the hand-written corner table cubeQuadsCornerTable and the (x,-y,-z) form are DERIVED (cubeQuads_positions_eq_table, cubeQuads_normals_eq_table, cylinder_positions_eq_exact_form, cylinder_normals_eq_exact_form) from a model of the construction in Cube.UnweldedQuads / Cylinder.ToMesh (six Quad.ToMesh meshes rotated by quaternion.FromTheta(k*pi/2, axis) through the regenerated Quaternion.Rotate and translated); what stays corresponded, not proved, is that this construction model (which quad dimensions, angles, axes, translations, Append order) is the code's: compared at Float on every run",
-        "merge maps: that they identify exactly the vertices whose REAL model positions (code-built for the six-quad box and the cylinder) coincide is a theorem (uvSphereUnwelded_merge_exact, cylinder_merge_exact, cubeQuads_merge_exact, *_positions_distinct); that the implementation's float positions realise the same classes (merged within 1e-9*size, unmerged not) is checked on every run (c18.merge.*, <= 3000 vertices), and closedness is additionally evaluated with the merge map computed from the implementation's positions alone (c18.holds.closed_by_position)",
+        "index lists, vertex counts, panics: the loop nests, loop bounds, integer assignments, appends and guards of UVSphere, UVSphereUnwelded, Hemisphere.UV, Circle.ToMesh and Cylinder.ToMesh (side strip; order and conditions of the two cap Appends) are REGENERATED from the Go source on every run (go/facts c18.loops -> Gen/PrimLoops.lean, a program of Model/LoopIR.lean) and the model's index lists / vertex counts / admissibility are PROVED equal to the interpretation of the extracted program for all parameters (*_indices_from_source, guards_from_source, cylinder_caps_from_source, uvSphereUnwelded_copy_map_from_source); what stays trusted/corresponded there: the extractor and the IR semantics (Go int modelled in N: on admissible parameters no extracted subtraction goes below 0; float64 modelled by the abstract Scalar operations, integer-valued constants as casts of naturals, decimal constants as num/den; statements that write no tracked slice, integer, float or vector used by a pushed vertex are skipped; an untranslatable float expression that reaches a vertex is refused), Mesh.Append's index shift (mesh.go) and NewTriangleMesh/SetFloat3Data wiring; on top of that the exact correspondence with the running constructors for every (rows, cols), sides <= 24 and sampled up to 512 remains",
+        "vertex POSITION / NORMAL expressions: those of UVSphere, Hemisphere.UV, Circle.ToMesh and the side of Cylinder.ToMesh are REGENERATED (float/vector statements of the loop programs, Gen/PrimLoops.lean) and the model's uvSpherePos, uvSphereNormal, hemispherePos, circlePos/circleNormal, cylinderPos/cylinderNormal (side) are PROVED equal to their interpretation for all parameters and EVERY scalar type (syntactic equality: holds at the reals of the geometric theorems and at the Float the driver runs); the unwelded sphere's positions follow from the proved copy map. Still hand-transcribed and only compared at Float: how Cylinder.ToMesh assembles the caps (Translate vectors, the rotation FromTheta(pi,(1,0,0)); the Append order/conditions are extracted) and the whole six-quad box construction of Cube.UnweldedQuads (quad corner order, dimensions, angles, axes, translations) in Model/SolidsCode.lean, and the welded box's positions beyond the extracted sign table",
+        "vertex-manifoldness: one umbrella per (merged) vertex is now a THEOREM for every primitive at all sizes (uvSphere_oneUmbrella, hemisphere_oneUmbrella, uvSphereUnwelded_oneUmbrella_mod_merge, cylinder_oneUmbrella_mod_merge with explicitly exhibited link cycles; boxes via the executable checker, proved sound: umbrella_checker_sound); connectedness is a theorem for the boxes and the welded UV sphere (uvSphere_connected, all sizes) — for hemisphere / unwelded sphere / cylinder it is not stated separately (it follows from the sphere's by the flip / merge identities for the first two; for the cylinder it is only evaluated by the oracle c18.holds.manifold on the implementation's meshes, every size <= 24 and the moderate samples)",
         "outward = positive signed volume of every face against an interior point (star-shapedness); embeddedness is not stated separately; Closed is edge-manifoldness with consistent orientation",
         "hemisphere normals are not covered: the property's normal clause names sphere, box, cylinder. Note: Hemisphere{Radius:r}.UV(rows, cols) with ANY admissible parameters supplies positions.Normalized() as normals and vertex 0 is the origin, so its normal is (NaN, NaN, NaN) (reachable through the public constructor and HemisphereNode; excluded from C18 by the wording, documented in notes/C18.md); the unwelded sphere supplies no normals",
         "cylinder with fewer than 3 sides and a cap panics in Circle.ToMesh (fix fc0d720): corresponded via Solids.cylinderAdmissible; degenerate pipes (no caps) are corresponded (indices, vertex count) but are not solids and carry no oracle",
@@ -67,7 +66,7 @@ CFG = dict(
     assumptions=["float64 arithmetic in Go on amd64 is IEEE-754 without FMA contraction",
                  "lengths (radius, height, box dimensions) in [0.01, 100]: the absolute tolerances and the 1e-9*size coincidence rule are calibrated for this range"],
     manifest=dict(
-        text="Lean 4 theorems, for ALL admissible parameters (no size bound), about a model of modeling/primitives whose index lists, vertex counts, panics and the unwelded sphere's copy map are proved equal to the interpretation of loop programs regenerated from sphere.go, hemisphere.go, circle.go, cylinder.go on every run (an edited loop bound or index expression breaks a named theorem at build): the index buffers of the UV sphere (welded; unwelded modulo its copy map), hemisphere (cap fan + dome), capped cylinder (modulo seam/cap-rim merge map) are closed consistently oriented surfaces (directed edges pairwise distinct, closed under reversal, no loops; proved via explicit twin blocks and omega on the loop indices), the welded box by decide on the cubeVertIndices table regenerated from cube.go on every run and the six-quad box modulo its corner table, which is itself proved from a model of the code's construction (six quads rotated by quaternion.FromTheta(k*pi/2, axis) through the regenerated Quaternion.Rotate, then translated; likewise the cylinder's bottom cap rotated by pi about X); the merge maps are proved to identify exactly the vertices whose real positions coincide; over the reals every face has positive signed volume against an interior point (sphere: det = r^3 sin(phi) sin(pi/rows) sin(2pi/cols)), supplied normals of sphere, box and cylinder have positive dot product with every incident face normal, and the enclosed volumes have closed forms (box w*h*d; cylinder (S/2) sin(2pi/S) r^2 H; sphere (C r^3/3) sin(2pi/C)(1+cos(pi/R)); hemisphere likewise) bounded above by the analytic volume with explicit O(1/R^2+1/C^2) deficit. Tied to the code on every run: index lists, vertex counts and panics compared exactly with the Go constructors for every (rows, cols), sides <= 24 and sampled up to 512 with and without cap/UV options; positions and normals at Float; the merge maps against the implementation's geometry; and the theorems' predicates (closed modulo merge, outward, volume, normals outward) evaluated on the implementation's own meshes.",
-        note="Trusted: Lean kernel; propext/Classical.choice/Quot.sound; facts extractor c18.cube; translator (Gen/Transform quaternion code); harness and position-class computation; sort-based closedness check above 1200 edges (cross-checked below); sin/cos tolerance. Not proved: vertex position formulas = code (hand transcription, corresponded at Float), one-umbrella-per-vertex at all sizes for the round primitives (oracle; boxes and sphere connectedness are theorems), IEEE rounding (the merge maps are proved exact over the reals and validated numerically on the implementation's floats), hemisphere normals (not in the property; vertex-0 normal is NaN).",
+        text="Lean 4 theorems, for ALL admissible parameters (no size bound), about a model of modeling/primitives whose index lists, vertex counts, panics, the unwelded sphere's copy map and the vertex position / normal formulas (sphere, hemisphere, circle, cylinder side; for every scalar type) are proved equal to the interpretation of loop programs regenerated from sphere.go, hemisphere.go, circle.go, cylinder.go on every run (an edited loop bound, index expression, angle formula or pole position breaks a named theorem at build); every vertex of every primitive has exactly one umbrella (explicit link cycles, all sizes): the index buffers of the UV sphere (welded; unwelded modulo its copy map), hemisphere (cap fan + dome), capped cylinder (modulo seam/cap-rim merge map) are closed consistently oriented surfaces (directed edges pairwise distinct, closed under reversal, no loops; proved via explicit twin blocks and omega on the loop indices), the welded box by decide on the cubeVertIndices table regenerated from cube.go on every run and the six-quad box modulo its corner table, which is itself proved from a model of the code's construction (six quads rotated by quaternion.FromTheta(k*pi/2, axis) through the regenerated Quaternion.Rotate, then translated; likewise the cylinder's bottom cap rotated by pi about X); the merge maps are proved to identify exactly the vertices whose real positions coincide; over the reals every face has positive signed volume against an interior point (sphere: det = r^3 sin(phi) sin(pi/rows) sin(2pi/cols)), supplied normals of sphere, box and cylinder have positive dot product with every incident face normal, and the enclosed volumes have closed forms (box w*h*d; cylinder (S/2) sin(2pi/S) r^2 H; sphere (C r^3/3) sin(2pi/C)(1+cos(pi/R)); hemisphere likewise) bounded above by the analytic volume with explicit O(1/R^2+1/C^2) deficit. Tied to the code on every run: index lists, vertex counts and panics compared exactly with the Go constructors for every (rows, cols), sides <= 24 and sampled up to 512 with and without cap/UV options; positions and normals at Float; the merge maps against the implementation's geometry; and the theorems' predicates (closed modulo merge, outward, volume, normals outward) evaluated on the implementation's own meshes.",
+        note="Trusted: Lean kernel; propext/Classical.choice/Quot.sound; facts extractor c18.cube; translator (Gen/Transform quaternion code); harness and position-class computation; sort-based closedness check above 1200 edges (cross-checked below); sin/cos tolerance. Not proved: the cap assembly of the cylinder and the six-quad box construction = code (hand transcription in Model/SolidsCode.lean, corresponded at Float; all other vertex position/normal formulas are regenerated and proved), connectedness of the cylinder (oracle), IEEE rounding (the merge maps are proved exact over the reals and validated numerically on the implementation's floats), hemisphere normals (not in the property; vertex-0 normal is NaN).",
         technique="Lean 4 proof for all parameters (List.range/flatMap combinatorics + omega; Mathlib trigonometry over the reals) + regenerated cube tables + exact index correspondence and oracle evaluation on the implementation's meshes"),
 )
